@@ -371,8 +371,8 @@ Inductive op :=
     (* a scalar rescale that touches the site tensors ss; these calls do not take the
        record, which is left as it is *)
 | ONormalizeSite (i : nat)
-    (* Tensor.normalize[_] on the site tensor: T.modify(data=T.data / T.norm(), left_inds=T.left_inds) -
-       the data is rescaled but the flag is passed on *)
+    (* Tensor.normalize[_] on the site tensor: T.modify(data=T.data / T.norm()) - a rescale of one
+       site like OScale [i]: data replaced, flag cleared *)
 | OSetRecord (r : rcd).
     (* the user starts a fresh record: info = {} / info["cur_orthog"] = None / "calc" *)
 
@@ -392,7 +392,7 @@ Definition step (o : op) (calc : nat * nat) (st : mps) : option mps :=
   | OScale ss => bind (scale_sites ss (sites st)) (fun l => Some (mkM l (rec st)))
   | ONormalizeSite i =>
       if i <? length (sites st)
-      then Some (mkM (setS (sites st) i (mkS false false (fl (get (sites st) i)))) (rec st))
+      then Some (mkM (setS (sites st) i blank) (rec st))
       else None
   | OSetRecord r => Some (mkM (sites st) r)
   end.
